@@ -104,3 +104,19 @@ Section RevTransrefl.
     rewrite prod_list_rev. reflexivity.
   Qed.
 End RevTransrefl.
+
+(* instance: complex numbers as pairs of reals *)
+From Coq Require Import Reals.
+From Arim Require Import Base.NumR Proofs.InterfaceProofs.
+
+Lemma NumC_R_mul_comm : forall a b : R * R, nmul (NumC NumR) a b = nmul (NumC NumR) b a.
+Proof. intros [a1 a2] [b1 b2]. unfold NumC, cmul; cbn [nmul NumR fst snd nsub nadd]. f_equal; ring. Qed.
+
+Lemma NumC_R_mul_assoc : forall a b c : R * R,
+  nmul (NumC NumR) (nmul (NumC NumR) a b) c = nmul (NumC NumR) a (nmul (NumC NumR) b c).
+Proof. intros [a1 a2] [b1 b2] [c1 c2]. unfold NumC, cmul; cbn [nmul NumR fst snd nsub nadd]. f_equal; ring. Qed.
+
+Lemma rev_transrefl_eq_C u (l : list (iface (K := R * R))) :
+  reverse_transrefl_for_path (NumC NumR) u l
+  = transrefl_for_path (NumC NumR) u (path_reverse l (map (reverse_angle (NumC NumR)) (rev l))).
+Proof. apply rev_transrefl_eq_gen; [exact NumC_R_mul_comm | exact NumC_R_mul_assoc]. Qed.
